@@ -195,6 +195,7 @@ def argKindSpec : ArgKind → Str
   | .m => ['{'] | .o _ => ['['] | .s => ['*']
   | .t c => ['t', c] | .r o c => ['r', o, c] | .d o c => ['d', o, c]
   | .v => ['v'] | .vd o c => ['v', o, c]
+  | .m0 => ['{']
 
 /-- `nodeargd.argspec` of a node whose arguments were parsed with this specification -/
 def argspecOf : ArgsP → Str
